@@ -401,6 +401,7 @@ async fn udp_hostile(udp: UdpNet, server: std::net::SocketAddr, client: usize, n
 struct StreamKnobs {
     max_queued: usize,
     write_timeout_ms: u64,
+    idle_timeout_ms: u64,
 }
 
 /// Shared state of one client connection.
@@ -409,6 +410,10 @@ struct ConnState {
     outstanding: Vec<usize>,
     writer_done: bool,
     eof: bool,
+    /// When the writer side last put a request on the wire.
+    last_write_ns: u64,
+    /// When the reader side last received a complete frame.
+    last_rx_ns: u64,
 }
 
 async fn conn_reader(led: Led, st: Rc<RefCell<ConnState>>, mut rd: tokio::io::ReadHalf<net::SimStream>, client: usize, conn: usize, first_idx: usize, stall_ms: u64) {
@@ -424,7 +429,8 @@ async fn conn_reader(led: Led, st: Rc<RefCell<ConnState>>, mut rd: tokio::io::Re
         sim::sync_clock();
         match r {
             Err(_) => {
-                if st.borrow().writer_done {
+                // Give up six quiet seconds after the last request went out.
+                if st.borrow().writer_done && sim::now_ns().saturating_sub(st.borrow().last_write_ns) >= 6_000_000_000 {
                     break;
                 }
                 continue;
@@ -443,6 +449,7 @@ async fn conn_reader(led: Led, st: Rc<RefCell<ConnState>>, mut rd: tokio::io::Re
             }
             let body = inbuf[2..2 + len].to_vec();
             inbuf.drain(..2 + len);
+            st.borrow_mut().last_rx_ns = sim::now_ns();
             ev!("tcp client{} conn{} got frame of {} octets id={}", client, conn, len, if body.len() >= 2 { u16::from_be_bytes([body[0], body[1]]) as i32 } else { -1 });
             // Bookkeeping of what is still outstanding.
             if body.len() >= 2 {
@@ -500,14 +507,21 @@ async fn stream_client(exec: Exec, led: Led, listener: SimListener, client: usiz
             outstanding: Vec::new(),
             writer_done: false,
             eof: false,
+            last_write_ns: 0,
+            last_rx_ns: 0,
         }));
         let reader = exec.spawn(format!("tcp{}.conn{}.reader", client, conn), conn_reader(led.clone(), st.clone(), rd, client, conn, first_idx, stall_read_ms));
         let mut out: Vec<u8> = Vec::new();
         let mut aborted = false;
         let mut junk_sent = false;
+        let mut slow_next = false;
         for i in 0..n_reqs {
             if abort_after == Some(i) {
                 aborted = true;
+                break;
+            }
+            // Nothing more can be asked over a connection the server closed.
+            if st.borrow().eof {
                 break;
             }
             if junk_at == Some(i) {
@@ -548,7 +562,11 @@ async fn stream_client(exec: Exec, led: Led, listener: SimListener, client: usiz
                     rounds += 1;
                 }
             }
-            let ask = gen_ask(k, false);
+            let mut ask = gen_ask(k, false);
+            if std::mem::take(&mut slow_next) && ask.e == 0 {
+                // The request that ends a quiet period takes a while to serve.
+                ask.d = 200 + sim::draw("ask.delay_after_quiet", 600) as u32;
+            }
             let edns = if sim::chance("tcp.edns", 1, 2) { Some(1232) } else { None };
             let id = (k % 60000) as u16;
             let bytes = mk_request(&ask, id, edns, false);
@@ -590,6 +608,36 @@ async fn stream_client(exec: Exec, led: Led, listener: SimListener, client: usiz
                     break;
                 }
                 out.clear();
+                if !slow_reader && !junk_sent && sim::chance("tcp.quiet_period", 1, 10) {
+                    // Everything answered, then silence for almost the
+                    // server's idle timeout, then the next request (whose
+                    // service may take a while): the connection is not idle
+                    // while that request is being served.
+                    let mut waited = 0;
+                    while !st.borrow().outstanding.is_empty() && !st.borrow().eof && waited < 5_000 {
+                        sim::sleep_ms(5).await;
+                        waited += 5;
+                    }
+                    if st.borrow().outstanding.is_empty() && !st.borrow().eof {
+                        // The server's idle period began no earlier than
+                        // shortly (link latency) before our last receipt.
+                        let base = st.borrow().last_rx_ns.max(st.borrow().last_write_ns) / 1_000_000;
+                        let until = (base + knobs.idle_timeout_ms).saturating_sub(150 + sim::draw("tcp.quiet_margin_ms", 300));
+                        sim::sync_clock();
+                        let now = sim::now_ns() / 1_000_000;
+                        if until > now {
+                            sim::stat("probe.quiet_period_just_below_idle_timeout");
+                            ev!("tcp client{} conn{} stays quiet for {} ms (idle timeout {} ms)", client, conn, until - now, knobs.idle_timeout_ms);
+                            sim::sleep_ms(until - now).await;
+                            // (While some task busy-waits, simulated timers
+                            // fire up to 64 ms late.)
+                            if sim::now_ns() / 1_000_000 > until + 70 {
+                                break;
+                            }
+                            slow_next = true;
+                        }
+                    }
+                }
                 let gap = sim::draw("tcp.gap_ms", 10);
                 if gap > 0 {
                     sim::sleep_ms(gap).await;
@@ -638,6 +686,7 @@ async fn stream_client(exec: Exec, led: Led, listener: SimListener, client: usiz
             drop(wr);
             continue;
         }
+        st.borrow_mut().last_write_ns = sim::now_ns();
         st.borrow_mut().writer_done = true;
         reader.join().await;
         let _ = wr.shutdown().await;
@@ -680,7 +729,7 @@ impl Scenario for ServerScn {
         )
     }
     fn rule(&self) -> &'static str {
-        "one real DgramServer and one real StreamServer with the mandatory+EDNS(+cookies) middleware over a stub service; 1-3 UDP clients (requests with no EDNS / EDNS sizes 0..65535, answers sized below and above 512/1232/4096, service delays, service errors, empty service streams) and 1-3 stream clients (1-14 pipelined requests per connection in one burst or paced, writes split at arbitrary octets, segmentation/stalls, streamed multi-response transactions, slow readers with small windows, aborts by FIN/RST, hostile frames) plus hostile UDP senders (random octets, QR=1, lying counts, compression loop, truncated, two OPT, EDNS v1, two questions, empty); optional reconfigure() mid-run; server limits (max_response_size, max_queued_responses, write timeout) drawn per run."
+        "one real DgramServer and one real StreamServer with the mandatory+EDNS(+cookies) middleware over a stub service; 1-3 UDP clients (requests with no EDNS / EDNS sizes 0..65535, answers sized below and above 512/1232/4096, service delays, service errors, empty service streams) and 1-3 stream clients (1-14 pipelined requests per connection in one burst or paced, writes split at arbitrary octets, segmentation/stalls, streamed multi-response transactions, slow readers with small windows, aborts by FIN/RST, hostile frames), optionally a peer whose connections fail their server-side set-up (with a connection limit that never binds legitimately), plus hostile UDP senders (random octets, QR=1, lying counts, compression loop, truncated, two OPT, EDNS v1, two questions, empty); optional reconfigure() mid-run; server limits (max_response_size, max_queued_responses, write timeout) drawn per run."
     }
     fn assumptions(&self) -> Vec<&'static str> {
         vec![
@@ -699,6 +748,7 @@ async fn run(_tier: Tier) {
     let knobs = StreamKnobs {
         max_queued: *sim::pick("cfg.max_queued", &[10usize, 2, 1, 64]),
         write_timeout_ms: *sim::pick("cfg.write_timeout", &[30_000u64, 1000, 200]),
+        idle_timeout_ms: 1000 * *sim::pick("cfg.idle_timeout", &[30u64, 2, 10]),
     };
     let use_cookies = sim::chance("cfg.cookies", 1, 3);
     ev!("cfg max_response_size={:?} max_queued={} write_timeout={}ms cookies={} hostile={}", max_response_size, knobs.max_queued, knobs.write_timeout_ms, use_cookies, hostile);
@@ -716,9 +766,16 @@ async fn run(_tier: Tier) {
     let mut ccfg = ConnectionConfig::new();
     ccfg.set_max_queued_responses(knobs.max_queued);
     ccfg.set_response_write_timeout(Duration::from_millis(knobs.write_timeout_ms));
-    ccfg.set_idle_timeout(Duration::from_secs(*sim::pick("cfg.idle_timeout", &[30u64, 2, 10])));
+    ccfg.set_idle_timeout(Duration::from_millis(knobs.idle_timeout_ms));
     let mut scfg = stream::Config::new();
     scfg.set_connection_config(ccfg);
+    // At most three well-behaved stream clients with one connection each
+    // (plus one that is just closing): a limit of eight never binds unless
+    // the server loses count.
+    let conn_limit = *sim::pick("cfg.conn_limit", &[0usize, 0, 8, 9]);
+    if conn_limit > 0 {
+        scfg.set_max_concurrent_connections(conn_limit);
+    }
 
     macro_rules! start {
         ($svc:expr) => {{
@@ -770,6 +827,24 @@ async fn run(_tier: Tier) {
         let conns = 1 + sim::draw("tcp.n_conns", 2) as u32;
         exec.spawn(format!("tcp{}", c), stream_client(exec.clone(), led.clone(), listener.clone(), 50 + c, conns, k, knobs, hostile));
         k += 40;
+    }
+    if sim::chance("setup_failer", 1, 3) {
+        // Connections whose server-side set-up fails (a failed handshake),
+        // spread over the run.
+        let n = 1 + sim::draw("setup_failer.n", 14);
+        let l2 = listener.clone();
+        exec.spawn("setup-failer".to_string(), async move {
+            let planner: Arc<dyn Fn(usize) -> ConnectPlan + Send + Sync> = Arc::new(|_| ConnectPlan {
+                fail_setup: true,
+                ..Default::default()
+            });
+            let c = l2.connector(addr(99, 7000), planner);
+            for _ in 0..n {
+                let s = c.connect_sim().await;
+                sim::sleep_ms(sim::draw("setup_failer.gap_ms", 40)).await;
+                drop(s);
+            }
+        });
     }
     if hostile {
         for c in 0..1 + sim::draw("n_hostile", 2) as usize {
